@@ -5,7 +5,7 @@ LEVEL = "proof"
 
 
 def run(chk):
-    build, oracle, tables = emucheck.setup(chk, extra_units=("prv", "chan", "mux", "emuloop"))
+    build, oracle, tables = emucheck.setup(chk, extra_units=("prv", "chan", "mux", "emuloop", "pv", "connect"))
     chk.assumptions = ["distinct clocks per event", "task, mark and breakdown channels are exercised by C07, C17 and C20"]
     rng = chk.rng
     allm = [m["name"] for m in tables["models"] if m["name"] != "ovni"]
@@ -39,6 +39,11 @@ def check_bay_layer(chk, build):
         "hand model coq/Emu/BayDefs.v (channels, bay callback lists and dirty list, three-phase bay_propagate, mux callbacks, "
         "tracking wiring), compared in process with the real chan.c/bay.c/mux.c/track.c/prv.c through harness/bay_h.c on every run; "
         "harness/bay_h.c replays the connect loops of thread.c/cpu.c/model_thread.c/model_cpu.c/model_pvt.c call by call")
+    chk.trusted_base.append(
+        "translate/units/connect.py + _stagec.py: thread_init_end/thread_connect, cpu_init_end/cpu_connect/cpu_get_th_chan, track.c, "
+        "model_thread.c, model_cpu.c, model_pvt.c connect functions translated to Gallina on every run; hand-written prelude "
+        "coq/Emu/ConnectPre.v (bay under construction + heap; chan_init/bay_register/mux_init/mux_set_input/prv_register with the "
+        "meaning of BayDefs) and driver ConnectProofs.connect_all (the calling loops of system.c/model.c, the mux_set_default tail)")
     try:
         bad = baycheck.check_bay(chk, build, chk.budget(3000, 60000))
     except Exception as e:                      # harness or extraction does not build: the tie is broken, not the property
